@@ -63,3 +63,7 @@ chk("C16","exploration",
  "instants (incl. before 1970 and at the digit-count boundaries of the unit heuristic) x spellings (epoch s/ms/us/ns as numbers and strings, float seconds, RFC 3339 with four offsets and fractional seconds) x four sites (STORE payload, SINCE USING, WHERE literal under all six operators, PER bucket under five granularities) x timezone / week-start configurations x {memory, flushed}; the stored value must be the instant's epoch second, and each literal / bucket is judged against the values the system itself returns",
  "independent integer calendar arithmetic; flushed layout restricted to a narrow cluster of instants (the temporal index builder does not cope with spans of decades); exact-case known findings in known/C16.*.json",
  "bounded exhaustive input enumeration against an independent reference of instant arithmetic","unitx+histx","DESIGN.md §3 C16")
+chk("C15","exploration",
+ "every assignment of (link value incl. absent, time) to small a/b event sets x FOLLOWED BY / PRECEDED BY x WHERE placements x LIMIT x layouts x shard counts on the real engine; constraint oracle from the statement (pairs linked, ordered, WHERE-satisfying; matched a-set == a-events with a qualifying partner; LIMIT bounds pairs) plus cross-layout agreement",
+ "which qualifying partner a pair carries is not prescribed; exact-case known findings in known/C15.*.json",
+ "bounded exhaustive enumeration of event sets x queries against a constraint oracle","histx product mode","DESIGN.md §3 C15")
